@@ -41,6 +41,10 @@ class Module:
         """-> list of (name, trace file, index map or None) of additional recorded traces"""
         return []
 
+    def design_proofs(self, prop, tier, sc):
+        """optional unbounded design-level results (Apalache); -> dict for the evidence file"""
+        return None
+
     def label_sig(self, label, detail):
         return label
 
@@ -92,10 +96,12 @@ def run(mod, prop, tier, replay=None, dev=False):
         scen_file = sc.path("scenarios.ndjson")
         mc_states = mc_trans = 0
         per_mode = collections.OrderedDict()
+        proofs = None
         if replay:
             with open(scen_file, "w") as f:
                 f.write(json.dumps(json.load(open(replay))["scenario"]) + "\n")
         else:
+            proofs = mod.design_proofs(prop, tier, sc)
             cfgs = mod.gen_configs(prop, tier, sd)
             log("[%s] TLC: %d Gen_%s configurations (model checking + scenario emission)" % (prop, len(cfgs), mod.name))
             results = vlib.pmap(_gen_one, [(mod, sc.dir, c) for c in cfgs], workers=7)
@@ -186,6 +192,7 @@ def run(mod, prop, tier, replay=None, dev=False):
             "trace_spec_states": int(tstats.get("tlc_states", 0)),
             "rejections_for_this_property": len(rejections),
             "rejection_signatures": sorted(set(r["sig"] for r in rejections)),
+            "unbounded_design_results": proofs,
             "exhaustive": False,
             "checker_cmd": "tlc Gen_%s (INVARIANTS %s); driver %s; tlc Trace_%s" % (mod.name, mod.invariants, mod.driver, mod.name),
         }
